@@ -333,6 +333,42 @@ def h_multi_signer(ctx):
     return Outcome(f"multi:{'ok' if not vs else 'bad'}", vs, nontrivial=(combo, supplied, kid_pos, pname))
 
 
+# ------------------------------------------------------------------ payloads handed over as text
+TEXTS = ["plain text", "\ufeffstarts with a byte-order mark", "in the mid\ufeffdle", "caf\u00e9", "cafe\u0301", "\u212b", "trailing newline\n", " leading blank", "\u0000nul first"]
+
+
+def h_text_payload(ctx):
+    """A payload given as str is signed as its UTF-8 octets - all of them, in the code points given."""
+    alg, kind = ctx.choose("alg/key", [("HS256", "oct32"), ("ES256", "P-256")])
+    path = ctx.choose("path", PATHS)
+    text = ctx.choose("text", TEXTS)
+    jwk = scen.key(kind)
+    key = A.jkey(jwk, "dict")
+    want = text.encode("utf-8")
+    prot = {"alg": alg}
+    if path.startswith("7797"):
+        prot.update({"b64": False, "crit": ["b64"]})
+    p_path = "7797-attached" if path == "7797-compact" else path
+    r = scen.jws_produce(p_path, dict(prot), None, text, key, [alg])
+    tag = f"{alg[:2]}* {path}"
+    if not r.ok:
+        return Outcome("produce-failed", [viol(f"signing a text payload fails: {tag}", f"{text!r}: {r.exc!r}")], nontrivial=(alg, path, text))
+    vs = []
+    tok = r.value
+    detached = want if (isinstance(tok, str) and tok.split(".")[1] == "" and want) else None
+    try:
+        pub = jwk if jwk["kty"] == "oct" else rjwk.public_of(jwk)
+        p = rjws.verify_compact(tok, pub, detached_payload=detached)[1] if isinstance(tok, str) else rjws.verify_json(tok, pub)[1]
+        if p != want:
+            vs.append(viol(f"a text payload is signed as other octets than its UTF-8 encoding: {tag}", f"{text!r}: {want!r} -> {p!r}"))
+    except (RefError, ValueError) as e:
+        vs.append(viol(f"independent verifier rejects a token made from a text payload: {tag}", f"{text!r}: {e!r}"))
+    c = scen.jws_consume(p_path, tok, key, [alg], payload=detached)
+    if not c.ok or c.value[0] != want:
+        vs.append(viol(f"round trip changes a payload that was given as text: {tag}", f"{text!r}: {c.exc!r} {c.value[0] if c.ok else None!r}"))
+    return Outcome(f"text:{'ok' if not vs else 'bad'}", vs, nontrivial=(alg, path, text))
+
+
 # ------------------------------------------------------------------ allow-lists the caller keeps and changes
 def h_callers_list(ctx):
     """The caller passes its own list object as algorithms=, later changes the list in place, and calls again: every call is governed by
@@ -515,17 +551,51 @@ def h_threads(ctx, directions=None):
         return bad or None
 
     def shared():
-        return {(k, w): A.jkey(scen.key(k, w), "dict") for _, k, w, _ in T_OPS}
-    return conc.pairs(ctx, [op(s_) for s_ in T_OPS], shared, judge, thorough=config.thorough())
+        from joserfc.jwk import KeySet
+        sh = {(k, w): A.jkey(scen.key(k, w), "dict") for _, k, w, _ in T_OPS}
+        sh["set"] = KeySet([A.jkey({**scen.key("oct32", i), "kid": kid_}, "dict") for i, kid_ in enumerate(["m", "c", "x", "a"])])
+        return sh
+
+    # two more operations on ONE shared key set: a round trip that names a member by kid, and the export of the set
+    def via_set(sh):
+        from joserfc import jws as _jws
+        r = call(_jws.serialize_compact, {"alg": "HS256", "kid": "x"}, b"payload-via-set", sh["set"], algorithms=["HS256"])
+        out = {"spec": ("HS256", "oct32", 2, "compact"), "signed": r, "via_set": True}
+        if r.ok:
+            out["verified"] = call(lambda: bytes(_jws.deserialize_compact(r.value, sh["set"], algorithms=["HS256"]).payload))
+        return out
+
+    def export_set(sh):
+        return {"export": call(lambda: [k.get("kid") for k in sh["set"].as_dict()["keys"]])}
+    menu = [op(s_) for s_ in T_OPS] + [("round trip HS256 through the shared key set (kid x)", via_set), ("export the shared key set", export_set)]
+    judge0 = judge
+
+    def judge(name, o, sh):  # noqa: F811
+        if "export" in o:
+            r = o["export"]
+            if not r.ok or sorted(r.value) != ["a", "c", "m", "x"]:
+                return ("the export of a key set fails or loses members while another call uses the set", f"{r.value!r} {r.exc!r}")
+            return None
+        if o.get("via_set"):
+            bad = []
+            if not o["signed"].ok:
+                bad.append(("signing through a key set fails while another call uses the set: HS*", repr(o["signed"].exc)))
+            elif not o["verified"].ok or o["verified"].value != b"payload-via-set":
+                bad.append(("a valid token is rejected or yields another payload while another call uses the key set: HS*", f"{o['verified'].value!r} {o['verified'].exc!r}"))
+            return bad or None
+        return judge0(name, o, sh)
+    return conc.pairs(ctx, menu, shared, judge, thorough=config.thorough())
 
 
 _p2 = Part("ecdsa-leading-zero", h_ecdsa_lz, split_depth=1)
 _p3 = Part("general-multi-signer", h_multi_signer, split_depth=2)
 _p3.single_bucket_ok = True
+_pt = Part("payloads-given-as-text", h_text_payload, split_depth=2)
+_pt.single_bucket_ok = True
 _pc = Part("callers-allow-list-changed-between-calls", h_callers_list, split_depth=2)
 _pc.single_bucket_ok = True
 PARTS = [
-    _pc,
+    _pc, _pt,
     Part("keys-declaring-their-operation", h_declared, split_depth=2),
     Part("thread-schedules", h_threads, bound={"quick": 1, "thorough": 2}, split_depth=3, budget={"quick": 2000, "thorough": 3000}, engine="E3"),
     Part("roundtrip", h_roundtrip, bound={"quick": 0, "thorough": 0}, split_depth=2, budget={"quick": 1200, "thorough": 1500}),
